@@ -27,6 +27,11 @@ func (r *RNG) Intn(n int) int {
 	return int(r.U64() % uint64(n))
 }
 func (r *RNG) Chance(num, den int) bool { return r.Intn(den) < num }
+func (r *RNG) Shuffle(n int, swap func(i, j int)) {
+	for i := n - 1; i > 0; i-- {
+		swap(i, r.Intn(i+1))
+	}
+}
 func pick[T any](r *RNG, xs []T) T      { return xs[r.Intn(len(xs))] }
 
 // ---- rule trees ----
@@ -897,6 +902,81 @@ func swapCase(s string) string {
 	return sb.String()
 }
 
+// addDecoys puts keys into obj that none of `paths` denotes but that LOOK like one of them: a run of two or more segments
+// joined by dots as ONE key of the root object (the whole path, a prefix, a suffix); letter-case variants of a segment in
+// the object in which that segment is looked up (two variants with different values, so that no single one is "the"
+// match; below a variant of an inner segment the rest of the path is spelled out). By every property these keys are
+// inert: a path denotes what successive EXACT key lookups reach. Never touches a key a path uses.
+func addDecoys(r *RNG, obj *AV, paths [][]string, val func() *AV) {
+	if obj == nil || obj.K != AVObj {
+		return
+	}
+	used := map[string]bool{}
+	for _, p := range paths {
+		for _, s := range p {
+			used[s] = true
+		}
+	}
+	put := func(o *AV, k string, v *AV) {
+		if used[k] || o.Get(k) != nil || v == nil {
+			return
+		}
+		o.Set(k, v)
+		o.Nil = false
+	}
+	for _, p := range paths {
+		switch r.Intn(3) {
+		case 0:
+			if len(p) > 1 {
+				i := r.Intn(len(p) - 1)
+				j := i + 2 + r.Intn(len(p)-i-1)
+				if r.Chance(1, 2) {
+					i, j = 0, len(p)
+				}
+				put(obj, strings.Join(p[i:j], "."), val())
+			}
+		default:
+			// walk the exact keys as far as a random depth or as far as objects go
+			depth := r.Intn(len(p))
+			cur := obj
+			lvl := 0
+			for lvl < depth {
+				nx := cur.Get(p[lvl])
+				if nx == nil || nx.K != AVObj {
+					break
+				}
+				cur = nx
+				lvl++
+			}
+			seg := p[lvl]
+			vars := []string{strings.ToUpper(seg), swapCase(seg), strings.ToLower(seg), strings.Title(strings.ToLower(seg))}
+			r.Shuffle(len(vars), func(a, b int) { vars[a], vars[b] = vars[b], vars[a] })
+			n := 0
+			for _, vn := range vars {
+				if vn == seg || n >= 2 {
+					continue
+				}
+				var v *AV
+				if lvl == len(p)-1 {
+					v = val()
+					if n == 1 {
+						v = pick(r, []*AV{avStr("silver"), avInt(7), {K: AVBool, B: false}, avStr("basic")})
+					}
+				} else if n == 0 {
+					v = avObj()
+					chainTo(v, p[lvl+1:], val())
+				} else {
+					v = pick(r, []*AV{avStr("basic"), avInt(7), avObj()})
+				}
+				if cur.Get(vn) == nil && !used[vn] {
+					put(cur, vn, v)
+					n++
+				}
+			}
+		}
+	}
+}
+
 // ObjOpts steers how an object is drawn for a rule.
 type ObjOpts struct {
 	NonObjMid  int // percent chance that a multi-segment path runs into a non-object (C07 only)
@@ -1002,33 +1082,17 @@ func genObject(r *RNG, root *Node, opt ObjOpts) *AV {
 		obj.Set("unrelated", avStr("zzz"))
 		obj.Nil = false
 	}
-	// decoys: keys that LOOK like a path of the rule but are not it - the whole dotted path as one top-level key, a
-	// dotted suffix of it, the first step in another letter case (two variants, so that no single one is "the" match)
-	if len(leaves) > 0 && r.Chance(1, 8) {
-		lf := pick(r, leaves)
-		p := lf.Path
-		idc2 := 100
-		switch r.Intn(3) {
-		case 0:
-			if len(p) > 1 {
-				obj.Set(strings.Join(p, "."), nearValue(r, lf, &idc2))
-				obj.Nil = false
-			}
-		case 1:
-			if len(p) > 2 {
-				obj.Set(strings.Join(p[1:], "."), nearValue(r, lf, &idc2))
-				obj.Nil = false
-			}
-		default:
-			up, sw := strings.ToUpper(p[0]), swapCase(p[0])
-			if up != p[0] && obj.Get(up) == nil {
-				obj.Set(up, nearValue(r, lf, &idc2))
-				obj.Nil = false
-			}
-			if sw != p[0] && sw != up && obj.Get(sw) == nil && r.Chance(1, 2) {
-				obj.Set(sw, avStr("silver"))
+	// decoys: keys that LOOK like a path of the rule but are not it (see addDecoys)
+	if len(leaves) > 0 && r.Chance(1, 5) {
+		var ps [][]string
+		for _, lf := range leaves {
+			if r.Chance(1, 2) {
+				ps = append(ps, lf.Path)
 			}
 		}
+		lf := pick(r, leaves)
+		idc2 := 100
+		addDecoys(r, obj, ps, func() *AV { return nearValue(r, lf, &idc2) })
 	}
 	return obj
 }
